@@ -5,7 +5,7 @@
 //! `account_snapshot()`), and compares with a ledger of the accepted orders.
 //! Request times are also NON-MONOTONE (fills are stamped from the requesting client's clock: fills at t=5, t=10, then t=6): a trade
 //! query returns exactly the fills with time_exchange >= time_since in the order they were made, whatever the order of their stamps.
-use crate::{eng::Rng, report};
+use crate::{rng::Rng, report};
 use barter_execution::{
     UnindexedAccountSnapshot,
     balance::{AssetBalance, Balance},
